@@ -178,7 +178,7 @@ def write_trace_replay(prop, h, r, findings):
 
 
 def do_replay(prop, mod, path):
-    """Re-run a stored replay: a Kani concrete-playback test, or a native replay test."""
+    """Re-run a stored replay: a Kani concrete-playback test, or a native replay test of /verif/replay."""
     if path.endswith(".playback.rs"):
         name = os.path.basename(path)[:-len(".playback.rs")]
         for h in getattr(mod, "KANI", []):
@@ -186,7 +186,20 @@ def do_replay(prop, mod, path):
                 ok, rpath, note = kanirun.playback(h, prop)
                 log("replay %s: reproduced=%s (%s)" % (h.name, ok, note))
                 return 1 if ok else 0
-    if hasattr(mod, "replay"):
-        return mod.replay(path)
+    if os.path.dirname(os.path.abspath(path)) == os.path.join(VERIF, "replay", "tests") and path.endswith(".rs"):
+        stem = os.path.basename(path)[:-3]
+        env = base_env()
+        hooks = "cfg(xet_verif)" in open(path).read()
+        env["CARGO_TARGET_DIR"] = os.path.join(BUILD, "replay_target_hooks" if hooks else "replay_target")
+        if hooks:
+            env["RUSTFLAGS"] = "--cfg xet_verif"
+        rc, out = sh(["cargo", "test", "--offline", "--test", stem], cwd=os.path.join(VERIF, "replay"), env=env, timeout=3000,
+                     log=os.path.join(LOGS, "replay_%s.log" % stem))
+        failed = "test result: FAILED" in out
+        log("replay %s: %s" % (stem, "violation reproduces" if failed else ("passes (no violation)" if "test result: ok" in out else "inconclusive rc=%s" % rc)))
+        for ln in out.splitlines():
+            if "violated" in ln:
+                log("  " + ln.strip()[:300])
+        return 1 if failed else (0 if "test result: ok" in out else 2)
     log("no replay handler for %s" % path)
     return 2
